@@ -39,7 +39,7 @@ fn targeted(rng: &mut Rng, b: &mut Vec<u8>) -> &'static str {
     }
     let streams: Vec<usize> = (1..n_ent).filter(|i| b.get(ent_off(*i) + 66) == Some(&2)).collect();
     let fat_off = |id: usize| l.fat_sectors.get(id / (s / 4)).map(|fs| (fs + 1) * s + 4 * (id % (s / 4)));
-    match rng.below(13) {
+    match rng.below(15) {
         0 => {
             // the mini stream's length
             let cur = rd32(b, ent_off(0) + 120);
@@ -95,6 +95,49 @@ fn targeted(rng: &mut Rng, b: &mut Vec<u8>) -> &'static str {
                 }
             }
             "name-illegal-unit"
+        }
+        12 | 13 => {
+            // an entry with two parents: a free sibling link of one entry is pointed at another entry of the same
+            // sibling tree, on the side on which the names are in order (so that a check of each parent/child pair
+            // alone still passes).  `Directory::validate` refuses it (it visits an entry twice); a validation that
+            // lets it through leaves a directory in which a removal can close a cycle
+            let name_of = |b: &Vec<u8>, i: usize| -> Option<String> {
+                let o = ent_off(i);
+                let units = (rd32(b, o + 64) & 0xffff) as usize / 2;
+                if units == 0 || units > 32 || o + 128 > b.len() { return None; }
+                let u: Vec<u16> = (0..units - 1).map(|k| u16::from_le_bytes([b[o + 2 * k], b[o + 2 * k + 1]])).collect();
+                String::from_utf16(&u).ok()
+            };
+            let used: Vec<usize> = (1..n_ent).filter(|i| matches!(b.get(ent_off(*i) + 66), Some(&1) | Some(&2))).collect();
+            // sibling trees: members reachable by left/right links from a child link
+            let mut trees: Vec<Vec<usize>> = Vec::new();
+            for owner in std::iter::once(0usize).chain(used.iter().cloned()) {
+                let c = rd32(b, ent_off(owner) + 76) as usize;
+                if c >= n_ent { continue; }
+                let (mut members, mut stack) = (Vec::new(), vec![c]);
+                while let Some(x) = stack.pop() {
+                    if x >= n_ent || members.contains(&x) || members.len() > 64 { continue; }
+                    members.push(x);
+                    stack.push(rd32(b, ent_off(x) + 68) as usize);
+                    stack.push(rd32(b, ent_off(x) + 72) as usize);
+                }
+                if members.len() >= 3 { trees.push(members); }
+            }
+            if !trees.is_empty() {
+                let t = rng.pick(&trees).clone();
+                for _ in 0..8 {
+                    let (x, y) = (*rng.pick(&t), *rng.pick(&t));
+                    if x == y { continue; }
+                    let (Some(nx), Some(ny)) = (name_of(b, x), name_of(b, y)) else { continue };
+                    let (kx, ky) = (crate::api::key_of(&nx), crate::api::key_of(&ny));
+                    let side = if kx < ky { 72 } else { 68 };  // y goes to the right of x when x < y
+                    if rd32(b, ent_off(x) + side) == 0xFFFFFFFF {
+                        wr32(b, ent_off(x) + side, y as u32);
+                        break;
+                    }
+                }
+            }
+            "dir-link-shared"
         }
         10 | 11 => {
             // two chains joined: a cell that holds a pointer is redirected to the head of another chain
@@ -184,6 +227,36 @@ fn gen_line(rng: &mut Rng, streams: &[(String, u64)], storages: &[String], open:
         8 if !streams.is_empty() => format!("get {}", enc(&rng.pick(streams).0)),
         _ => "flush".to_string(),
     }
+}
+
+/// remove every stream in turn, looking every name up (and creating a new one) after each removal
+fn directed_removals(image: &[u8]) -> Option<Vec<String>> {
+    let img = image.to_vec();
+    let listing = catch(move || {
+        let c = CompoundFile::open(std::io::Cursor::new(img)).ok()?;
+        let v: Vec<(String, bool)> = c.walk().take(60).map(|e| (e.path().to_string_lossy().to_string(), e.is_stream())).collect();
+        Some(v)
+    }).ok().flatten()?;
+    let mut streams: Vec<String> = Vec::new();
+    for (p, is_stream) in &listing {
+        if *is_stream && !streams.contains(p) {
+            streams.push(p.clone());
+        }
+    }
+    if streams.len() < 2 {
+        return None;
+    }
+    let mut h = Vec::new();
+    for (i, s) in streams.iter().enumerate().take(12) {
+        h.push(format!("rm {}", enc(s)));
+        for t in streams.iter().take(12) {
+            h.push(format!("get {}", enc(t)));
+        }
+        h.push(format!("put {} 0101", enc(&format!("/zq{}", i))));
+        h.push(format!("get {}", enc("/q")));
+        h.push(format!("get {}", enc("/mm")));
+    }
+    Some(h)
 }
 
 /// is this call refused for a reason C10 lists, judging by what the file shows right now?
@@ -323,7 +396,17 @@ pub fn campaign(seed: u64, bases: &str, count: u64, max_ops: u64, keepdir: &str)
             classes.push(if rng.chance(1, 2) { targeted(&mut rng, &mut b) } else { corrupt(&mut rng, &mut b) });
         }
         let case_seed = rng.next();
-        match run_case(b.clone(), case_seed, None, max_ops) {
+        // a directory in which an entry has two parents (only a weakened validation accepts it): the random history
+        // rarely removes exactly the entry whose removal closes a cycle — remove every stream in turn and look every
+        // name up after each removal
+        let directed: Option<Vec<String>> = if classes.contains(&"dir-link-shared") { directed_removals(&b) } else { None };
+        let mut outcomes = vec![run_case(b.clone(), case_seed, None, max_ops)];
+        if let Some(h) = directed {
+            if matches!(outcomes[0], CaseResult::Fine(_)) {
+                outcomes[0] = run_case(b.clone(), case_seed, Some(h), max_ops);
+            }
+        }
+        match outcomes.pop().unwrap() {
             CaseResult::Rejected => *hist.entry("case:rejected-by-open".to_string()).or_insert(0u64) += 1,
             CaseResult::OpenPanicked => *hist.entry("case:open-panicked(C05)".to_string()).or_insert(0) += 1,
             CaseResult::Fine(n) => {
